@@ -140,7 +140,10 @@ def gen_case(seed, idx, tier="quick"):
         t["parent"]["genome"]["seq"] = t["parent"]["genome"]["seq"].translate(str.maketrans("ACGT", "CATG"))
         prior = [t]
     return {"specs": colls, "prior": prior, "conditioned": conditioned, "flavor": rng.choice(["PROKARYOTIC", "EUKARYOTIC"]), "update_translations": rng.random() < 0.7,
-            "hs_a": a, "hs_b": b, "faults": rng.random() < cfg["fault_p"], "reader_chunk": rng.choice([1, 16, 256]), "warm": rng.random() < 0.3}
+            "hs_a": a, "hs_b": b, "faults": rng.random() < cfg["fault_p"], "reader_chunk": rng.choice([1, 16, 256]), "warm": rng.random() < 0.3,
+            # schedule of the importer's cooperating consumers (see bcsim/coop.py) and read-fault enumeration
+            "sched_seed": rng.randrange(2 ** 31) if rng.random() < 0.5 else None,
+            "read_faults": rng.choice(MODES) if rng.random() < cfg["fault_p"] * 1.5 else None}
 
 
 # ---------------------------------------------------------------------------------------------------------------
@@ -285,6 +288,59 @@ def h_import(req):
                 res[label] = {"error": type(e).__name__, "msg": str(e)[:160]}
             res[label + "_reads"] = rd.reads
         out["modes"][mode] = res
+    if req.get("sched_seed") is not None:
+        # several consumers of this importer step their (lazy) parsers in a seed-chosen interleaving; one of them may
+        # be reading the other file and walk away in the middle of it
+        from bcsim import coop
+
+        srng = _r.Random(req["sched_seed"])
+        chosen = [srng.choice(MODES) for _ in range(srng.choice([2, 3]))]
+        makers = []
+        for i, m in enumerate(chosen):
+            makers.append((f"{m}#{i}", (lambda m=m, i=i: parse_genbank(
+                simdisk.SimReader(text, rng=_r.Random(i), max_chunk=req.get("reader_chunk", 16)), gbk_type=GenBankParserType[m]))))
+        abandon = {}
+        if req.get("prior_text"):
+            pm = srng.choice(MODES)
+            makers.append(("prior", lambda: parse_genbank(simdisk.SimReader(req["prior_text"]), gbk_type=GenBankParserType[pm])))
+            abandon["prior"] = srng.choice([0, 1, 1, 99])
+        res, schedule = coop.run_tasks(makers, srng, abandon)
+        sched = {}
+        for lb, r in res.items():
+            if lb == "prior":
+                continue
+            if r["error"]:
+                sched[lb] = {"error": r["error"].split(":")[0]}
+                continue
+            try:
+                sched[lb] = [_gene_summary(c) for c in ParsedAnnotationRecord.parsed_annotation_records_to_model(r["items"])]
+            except Exception as e:
+                sched[lb] = {"error": type(e).__name__}
+        out["sched"] = sched
+        out["schedule"] = schedule
+        out["sched_abandoned"] = bool(res.get("prior", {}).get("abandoned"))
+    if req.get("read_faults"):
+        m = req["read_faults"]
+        plain = out["modes"][m]["plain"]
+        R = out["modes"][m]["plain_reads"]
+        if isinstance(plain, list) and R:
+            ks = list(range(1, R + 1))
+            if R > 90:
+                ks = ks[:30] + ks[30:-30:max(1, (R - 60) // 30)] + ks[-30:]
+            recs_out = []
+            for k in ks:
+                rd = simdisk.SimReader(text, fail_at=k)
+                try:
+                    got = [_gene_summary(c) for c in ParsedAnnotationRecord.parsed_annotation_records_to_model(
+                        list(parse_genbank(rd, gbk_type=GenBankParserType[m])))]
+                    outcome = "returned_full" if got == plain else "returned_wrong"
+                except OSError:
+                    outcome = "oserror" if rd.fired else "other_oserror"
+                except Exception as e:
+                    outcome = "raise:" + type(e).__name__
+                recs_out.append({"k": k, "outcome": outcome, "fired": rd.fired})
+            out["read_faults"] = recs_out
+            out["read_faults_all"] = len(ks) == R
     return out
 
 
@@ -562,7 +618,26 @@ def run_case(case):
     stats["conditioned"] += int(case["conditioned"])
     stats["with_translations"] += int(case["update_translations"])
     stats["W_max"] = a["W"]
-    imp = nd.call(case["hs_b"], {"op": "c12.import", "text": t1, "reader_chunk": case["reader_chunk"], "prior_text": a.get("prior_text")})
+    imp = nd.call(case["hs_b"], {"op": "c12.import", "text": t1, "reader_chunk": case["reader_chunk"], "prior_text": a.get("prior_text"),
+                                 "sched_seed": case.get("sched_seed"), "read_faults": case.get("read_faults")})
+    if "sched" in imp:
+        stats["sched_episodes"] += 1
+        stats["sched_steps"] += len(imp["schedule"])
+        stats["sched_switches"] += sum(1 for x, y in zip(imp["schedule"], imp["schedule"][1:]) if x != y)
+        stats["sched_abandoned_consumer"] += int(imp.get("sched_abandoned", False))
+        for lb, got in imp["sched"].items():
+            ref = imp["modes"][lb.split("#")[0]]["plain"]
+            ref = {"error": ref["error"]} if isinstance(ref, dict) else ref
+            if got != ref:
+                fs.append({"inv": "interleaving", "what": "parse_depends_on_other_consumers", "mode": lb.split("#")[0], "detail": json.dumps(imp["schedule"])[:200], "flavor": case["flavor"]})
+    if "read_faults" in imp:
+        stats["read_fault_files"] += 1
+        stats["read_fault_enumerated_all"] += int(imp.get("read_faults_all", False))
+        for rec in imp["read_faults"]:
+            stats["read_faults_fired"] += int(rec["fired"])
+            stats["read_fault_" + rec["outcome"].split(":")[0]] += 1
+            if rec["outcome"] == "returned_wrong":
+                fs.append({"inv": "read_fault", "what": "returned_other_result_after_read_error", "detail": f"k={rec['k']}", "flavor": case["flavor"]})
     stats["stale_exporter"] += int("prior_text" in a)
     stats["stale_importer"] += int(bool(imp.get("prior_parsed")))
     stats["hashseed_differs"] += int(case["hs_a"] != case["hs_b"])
@@ -757,7 +832,8 @@ def evidence(agg, tier, seed, wall, batches):
         "rule": "one evaluation = one export/import episode: node A writes 1-2 generated collections as GenBank through a SimDisk handle; "
                 "node B (other hash seed) reads the bytes with Bio.SeqIO (independent reader) and with BioCantor's parser in all 3 grouping "
                 "modes, each through a short-reading SimDisk reader and a plain one; B also exports and A parses B's file (hash-seed swap); "
-                "in ~6% of episodes the disk fails at every write index. distinct = sha256 of the case; non-trivial = a file was produced and read.",
+                "in ~6% of episodes the disk fails at every write index, in ~9% at every read index of one parser mode (must raise or return the full result); "
+                "in half of the episodes 2-4 lazy parser generators are stepped by a seeded cooperative scheduler (each must return what it returns alone). distinct = sha256 of the case; non-trivial = a file was produced and read.",
         "samples": [sample],
         "simulated_runs_per_hour": round(rph), "seeds_per_hour": round(rph),
         "simulated_time": "not applicable: no timers; one episode = 3-4 node requests, 6+ parses",
@@ -768,6 +844,12 @@ def evidence(agg, tier, seed, wall, batches):
             "stale_exporter(exported a strain twin earlier in the same process)": st["stale_exporter"],
             "stale_importer(parsed another file earlier in the same process)": st["stale_importer"],
             "files_whose_text_differs_between_hash_seeds(set order of qualifiers)": st["files_differing_in_text_across_hashseeds(qualifier order)"],
+            "interleaved_consumers(episodes where 2-4 lazy parsers were stepped by the seeded scheduler)": st["sched_episodes"],
+            "scheduler_steps": st["sched_steps"], "scheduler_task_switches": st["sched_switches"],
+            "abandoned_consumer(a parser closed in the middle of another file)": st["sched_abandoned_consumer"],
+            "read_fault(k)": st["read_faults_fired"], "files_with_read_fault_enumeration": st["read_fault_files"],
+            "files_where_every_read_index_was_enumerated": st["read_fault_enumerated_all"],
+            "read_fault_outcomes": {k[11:]: v for k, v in st.items() if k.startswith("read_fault_") and k[11:] in ("oserror", "returned_full", "returned_wrong", "raise", "other_oserror")},
         },
         "reach_probes": {
             "genes": st["genes"], "minus_strand_multi_block_cds": st["minus_multiblock_cds"], "non_zero_start_frame_cds": st["nonzero_start_frame"],
